@@ -8,6 +8,7 @@ import (
 	"context"
 	"errors"
 	"fmt"
+	"github.com/TeaEntityLab/fpGo/v2/zzverif/vsched"
 	"io"
 	"mime"
 	"mime/multipart"
@@ -215,6 +216,19 @@ func main() {
 			}
 		}
 	}
+	// nested evaluation under each sync.Pool policy of the shim: an interceptor of the outer API evaluates a
+	// JSON call of another API (audit / token refresh) between the outer body's serialization and its
+	// transmission; every request still carries its own serializer output
+	for pool := 0; pool < 3; pool++ {
+		vsched.PoolRetain = pool
+		for _, ct := range ctors() {
+			if ct.kind == "json" {
+				inputs++
+				nestedCase(ct, base, pool)
+			}
+		}
+	}
+	vsched.PoolRetain = 0
 	r.Cov["states"] = inputs
 	r.Cov["transitions"] = evals
 	r.Cov["traces_validated_against_impl"] = evals
@@ -225,6 +239,52 @@ func main() {
 	r.Assume = []string{"stub http.RoundTripper instead of sockets (its response body honours the request context, like a real transport's)",
 		"placeholder values contain no braces, so substitution is independent of the PathParam iteration order: a correct implementation gives one URL for every order, and the map-order seam planned in DESIGN §2.1 is not needed for the oracle (it was not built)"}
 	r.Finish()
+}
+
+func nestedCase(ct ctor, base string, pool int) {
+	innerStub := &stub{respBody: `{"A":1}`}
+	innerAPI := network.NewSimpleAPIWithSimpleHTTP(base, network.NewSimpleHTTPWithClientAndInterceptors(&http.Client{Transport: innerStub}))
+	innerCall := network.APIMakePostJSONBody[interface{}, reply](innerAPI, "audit")
+	round := 0
+	var ic network.Interceptor = func(req *http.Request) error {
+		round++
+		var t reply
+		innerCall(nil, payload{A: 900 + round, B: "inner body, longer than the outer one"}, &t).Eval()
+		return nil
+	}
+	st := &stub{respBody: `{"A":42}`}
+	api := network.NewSimpleAPIWithSimpleHTTP(base, network.NewSimpleHTTPWithClientAndInterceptors(&http.Client{Transport: st}, &ic))
+	call := ct.mk(api, "x")
+	var t reply
+	p := lib.Catch(func() {
+		for i := 1; i <= 3; i++ { // the same MonadIO three times, then a new one
+			io_ := call(nil, payload{A: i, B: "o"}, &t)
+			io_.Eval()
+			evals++
+			io_.Eval()
+			evals++
+		}
+	})
+	if p != "" {
+		bad("panic", "%s with an interceptor that evaluates another JSON call (sync.Pool policy %d): %s", ct.name, pool, p)
+		return
+	}
+	var got, want []string
+	for _, c := range st.reqs {
+		got = append(got, c.body)
+	}
+	for i := 1; i <= 3; i++ {
+		w := fmt.Sprintf(`{"a":%d,"b":"o"}`, i)
+		want = append(want, w, w)
+	}
+	if fmt.Sprint(got) != fmt.Sprint(want) {
+		bad("body|nested-call", "%s with an interceptor that evaluates another JSON call before the transport (sync.Pool policy %d): outer request bodies %q, serializer output %q", ct.name, pool, got, want)
+	}
+	for i, c := range innerStub.reqs {
+		if w := fmt.Sprintf(`{"a":%d,"b":"inner body, longer than the outer one"}`, 901+i); c.body != w {
+			bad("body|nested-call", "%s: inner (interceptor-made) request %d carried %q, serializer output %q (sync.Pool policy %d)", ct.name, i, c.body, w, pool)
+		}
+	}
 }
 
 func oneCase(ct ctor, base, tmpl string, pp network.PathParam, hdr http.Header, fault string, samples *lib.Samples) {
